@@ -53,9 +53,20 @@ Definition dy_logpdf (x p : value) : Z :=
   | _, _ => 0
   end.
 
+(** kind 4: bounded support {v >= p}: log density -(v-p) inside, -infinity
+    outside.  -infinity is modelled by the sentinel [NEGINF]; totals are clamped
+    by the correspondence before comparison (Corr.v: clampz). *)
+Definition NEGINF : Z := -1000000000.
+Definition bs_logpdf (x p : value) : Z :=
+  match x, p with
+  | VZ v, VZ q => if Z.leb q v then - (v - q) else NEGINF
+  | _, _ => 0
+  end.
+
 Definition stub_logpdf (kind : nat) (x args : value) : Z :=
   match kind, args with
   | 3%nat, VTup [p] => dy_logpdf x p
+  | 4%nat, VTup [_; p] => bs_logpdf x p
   | _, _ =>
   match args with
   | VTup [_; p] =>
@@ -67,7 +78,15 @@ Definition stub_logpdf (kind : nat) (x args : value) : Z :=
   | _ => 0
   end
   end.
-Definition stub (kind : nat) : dist := {| logpdf := stub_logpdf kind |}.
+(** scripted samplers: kinds 0-2 return their tape argument, kind 4 returns
+    max(tape, param) (always inside the support). *)
+Definition stub_sample (kind : nat) (args : value) : value :=
+  match kind, args with
+  | 4%nat, VTup [VZ t; VZ p] => VZ (Z.max t p)
+  | _, VTup (t :: _) => t
+  | _, _ => VNone
+  end.
+Definition stub (kind : nat) : dist := {| logpdf := stub_logpdf kind; dsample := stub_sample kind |}.
 
 Definition args_list (v : value) : list value :=
   match v with VTup l => l | _ => [] end.
@@ -130,14 +149,11 @@ with compile_p (p : past) (env : list value) : prog :=
   end.
 
 (** Resolve every draw by the tape component of its arguments. *)
-Definition echo (args : value) : value :=
-  match args with VTup (t :: _) => t | _ => VNone end.
-
 Fixpoint run_echo {A} (m : samp A) : res A :=
   match m with
   | SRet a => Ok a
   | SErr e => Err e
-  | SDraw d args k => run_echo (k (echo args))
+  | SDraw d args k => run_echo (k (dsample d args))
   end.
 
 Lemma run_echo_reach {A} (m : samp A) a : run_echo m = Ok a -> reach m a.
